@@ -42,13 +42,13 @@ def _alarm(signum, frame):
     raise RunTimeout("".join(traceback.format_stack(frame, limit=12)))
 
 
-def run_case(check, case, keep_events=False):
+def run_case(check, case, keep_events=False, patience=1):
     """Execute one case. Returns (ctx, violation-or-None)."""
     ctx = Ctx()
     if keep_events:
         ctx.keep_events()
     old = signal.signal(signal.SIGALRM, _alarm)
-    limit = int(getattr(check, "RUN_TIMEOUT_S", RUN_TIMEOUT_S))
+    limit = int(getattr(check, "RUN_TIMEOUT_S", RUN_TIMEOUT_S)) * patience
     signal.alarm(limit)
     viol = None
     try:
@@ -385,6 +385,9 @@ def batch(cid, tier):
             continue
         path = confirm_shrink_write(check, cid, seed, config, i, case, sig,
                                     detail)
+        if path is None:
+            agg["nviol"] -= agg["sig_counts"].get(sig, 0)
+            continue
         reported.append((sig, path))
 
     wall = time.time() - t0
@@ -475,8 +478,29 @@ def determinism_selftest(check, cid, seed, plan, agg, tier, n):
             "fresh_interpreter_other_hashseed": fresh}
 
 
+WALL = "progress/wall-timeout"
+
+
 def confirm_shrink_write(check, cid, seed, config, i, case, sig, detail):
     # (1) confirm by re-executing the recorded case (not the seed)
+    if sig == WALL:
+        # wall-clock time is the one thing the simulator does not own: a
+        # run that exceeded its allowance while 16 workers (and whatever
+        # else runs on the machine) competed for the processors is run
+        # again, alone, with eight times the allowance.  Only a run that
+        # still does not finish is reported as a lack of progress.
+        ctx, viol = run_case(check, case, keep_events=True, patience=8)
+        if viol is None:
+            print("note: run %s/%d exceeded its wall-clock allowance under "
+                  "load and finished when run alone: not a violation" %
+                  (config, i))
+            return None
+        if viol.signature != sig:
+            raise HarnessError(
+                "run %s/%d timed out, and alone it ends in %s: the harness "
+                "is not deterministic" % (config, i, viol.signature))
+        return write_replay(cid, seed, config, i, case, sig, viol.detail,
+                            ctx.events[-200:], shrunk_from=len(canon(case)))
     ctx, viol = run_case(check, case, keep_events=True)
     if viol is None or viol.signature != sig:
         raise HarnessError(
@@ -521,8 +545,10 @@ def write_evidence(check, cid, tier, seed, agg, wall, selftest, reported,
         "seeds": "run i of config c uses blake2b('%s/%d/c/i'); VERIF_SEED=%d"
                  % (cid, seed, seed),
         "logical_steps": agg["steps"],
-        "simulated_time": "none: no property reads a clock; progress is "
-                          "measured in logical steps (events)",
+        "simulated_time": getattr(
+            check, "SIMULATED_TIME",
+            "none: this property reads no clock; progress is measured in "
+            "logical steps (events)"),
         "fault_kinds_fired": dict(sorted(agg["fired"].items())),
         "probes_hit": dict(sorted(agg["probes"].items())),
         "gray_zone_notes": dict(sorted(agg["notes"].items())),
